@@ -72,7 +72,76 @@ def patch_eigsh(mbi):
 
 
 # ----------------------------------------------------------------------------------- generation
+def gen_aim_case(rnd):
+    """C10 through the one shipped consumer of structural_zeros: AIM end to end (warm-started engine, growing measurement
+    list, annealing), with zero cells that the data respects; the synthetic records must respect them too."""
+    d = rnd.choice([2, 3, 3])
+    attrs = ['a', 'b', 'c'][:d]
+    sizes = [rnd.randint(2, 4) for _ in attrs]
+    zc = rnd.sample(attrs, 2 if d > 2 or rnd.random() < 0.7 else 1)
+    shape = [sizes[attrs.index(a)] for a in zc]
+    cells = [list(c) for c in np.ndindex(*shape)]
+    zero_cells = rnd.sample(cells, rnd.randint(1, max(1, len(cells) // 2)))
+    recs = []
+    while len(recs) < rnd.choice([20, 60, 200]):
+        r = [rnd.randrange(s_) for s_ in sizes]
+        if [r[attrs.index(a)] for a in zc] not in zero_cells:
+            recs.append(r)
+    import itertools
+    pairs = [list(c) for c in itertools.combinations(attrs, 2)] or [[attrs[0]]]
+    wl = rnd.sample(pairs, rnd.randint(1, len(pairs)))
+    pol = rnd.choice([{}, {'repeat': 0.8}, {'zero': 0.5, 'repeat': 0.5}, {'outlier': 0.3, 'argmin': 0.3}])
+    return dict(engine='C', kind='aim', attrs=attrs, sizes=sizes, zeros=[[zc, zero_cells]], records=recs, workload=wl, eps=rnd.choice([0.3, 1.0, 3.0, 10.0]),
+                delta=1e-6, rounds=rnd.choice([d, d + 1, 2 * d, 6]), rates=pol, rng_seed=rnd.getrandbits(32), iters_cap=rnd.choice([5, 20, 50]))
+
+
+def run_aim_case(case):
+    import pandas as pd
+    from engines import d_twin
+    mbi = core.load_mbi()
+    mod = d_twin.load('aim')
+    d_twin.capped_fi(mbi).CAP[0] = int(case['iters_cap'])
+    dom = mbi.Domain(case['attrs'], case['sizes'])
+    data = mbi.Dataset(pd.DataFrame(np.array(case['records'], dtype=int), columns=case['attrs']), dom)
+    zs = zero_spec(case)
+    rng = SimRNG(random.Random(case['rng_seed']), {'rates': case['rates']})
+    viol, faults, probes = [], {}, {}
+
+    def go():
+        with rng.installed():
+            m = mod.AIM(case['eps'], case['delta'], rounds=case['rounds'], structural_zeros=zs)
+            m.prng = rng
+            return m.run(data, [(tuple(w), 1.0) for w in case['workload']])
+    out, v = guard_repo(go, 'AIM.run')
+    for k, n_ in rng.fired.items():
+        faults['rng-' + k] = n_
+    sig = [round(float(np.max(np.asarray(e['scale']))), 6) for e in rng.events if e['kind'] == 'normal']
+    annealed = sum(1 for x, y in zip(sig, sig[1:]) if y < x * 0.75)
+    if annealed:
+        probes['aim-annealed'] = 1
+    if v is not None:
+        probes['aim-raised:' + v.sig[:60]] = 1        # AIM failing (e.g. too few rounds) is not a C10 matter
+    else:
+        df = out.df
+        for zc, cells in case['zeros']:
+            sub = df[list(zc)].values
+            for cell in cells:
+                hit = np.all(sub == np.array(cell), axis=1)
+                if hit.any():
+                    viol.append(Violation('c10-synthetic', 'c10-synthetic:AIM', 'AIM(structural_zeros=...) returned %d record(s) in the declared-impossible cell %s=%s (annealed %d times)' % (
+                        int(hit.sum()), tuple(zc), tuple(cell), annealed)).as_dict())
+                    break
+            if viol:
+                break
+        probes['aim-with-zeros-checked'] = 1
+    measure = ['aim', case['sizes'], case['rounds'], annealed > 0, sorted(case['rates'])]
+    return dict(violations=viol[:1], measure=measure, nontrivial=annealed > 0, faults=faults, probes=probes, steps=len(rng.events),
+                digest=core.digest([rng.summary()[:200], [x['sig'] for x in viol[:1]]]))
+
+
 def gen_case(rnd, prop, tier):
+    if prop == 'C10' and rnd.random() < 0.05:
+        return gen_aim_case(rnd)
     n = rnd.choice([2, 3, 3, 4, 4, 5])
     attrs = gen.gen_names(rnd, n)
     sizes = gen.gen_sizes(rnd, n, max_size=4, max_joint=1024, p_one=0.04)
@@ -488,6 +557,8 @@ def models_equal(m1, m2):
 
 # ----------------------------------------------------------------------------------- run
 def run_case(case, prop):
+    if case.get('kind') == 'aim':
+        return run_aim_case(case)
     mbi = core.load_mbi()
     patch_eigsh(mbi)
     attrs = case['attrs']
@@ -729,6 +800,23 @@ def _fix_ops_after_pool_drop(c, k):
 
 
 def shrink(case, prop):
+    if case.get('kind') == 'aim':
+        if len(case['records']) > 4:
+            h = len(case['records']) // 2
+            for part in (case['records'][:h], case['records'][h:]):
+                c = copy.deepcopy(case)
+                c['records'] = part
+                yield c
+        if case['rates']:
+            c = copy.deepcopy(case)
+            c['rates'] = {}
+            yield c
+        if len(case['workload']) > 1:
+            for k in range(len(case['workload'])):
+                c = copy.deepcopy(case)
+                del c['workload'][k]
+                yield c
+        return
     ops = case['ops']
     n = len(ops)
 
